@@ -344,8 +344,9 @@ fn first_diff(
         // and in the reference semantics (engine `sem`) only, not in the VM model: see VmEngine
         // (the model's state is off from that line on: the rest of the case is not compared either)
         // (`typed3`, $747970656433, is a harness-only host function as well: its conversion messages
-        // are checked by the nat engine's oracle)
-        let uses_pcall = engine.name() != "sem" && ops[..=i].iter().any(|o| o.contains("$7063616c6c") || o.contains("$747970656433"));
+        // are checked by the nat engine's oracle; so is `reguard`, $72656775617264: the mem engine's
+        // bounded-live-data oracle decides what it leaves behind)
+        let uses_pcall = engine.name() != "sem" && ops[..=i].iter().any(|o| o.contains("$7063616c6c") || o.contains("$747970656433") || o.contains("$72656775617264"));
         if is_model && (!engine.model_compared(&ops[i]) || y == "model-timeout" || uses_pcall) {
             continue;
         }
